@@ -4,7 +4,7 @@ from pyvc.contract import *  # noqa: F401,F403
 from pyvc.contract import Contract, Registry
 from pyvc.values import *  # noqa: F401,F403
 from pyvc import interp as _interp
-from pyvc.interp import Unsupported  # noqa: F401
+from pyvc.interp import Unsupported, VDict  # noqa: F401
 
 REG = Registry()
 
@@ -28,13 +28,16 @@ def returns_fresh(kind='int', lo=None, hi=None, label='ret'):
 
         if kind == 'int':
             v = it.ctx.fresh(label)
+            it.ctx.inputs.setdefault(str(v), ('int', v))
             if lo is not None:
                 it.ctx.assume(v >= lo)
             if hi is not None:
                 it.ctx.assume(v <= hi)
             return v
         if kind == 'bool':
-            return it.ctx.fresh(label, z3.BoolSort())
+            v = it.ctx.fresh(label, z3.BoolSort())
+            it.ctx.inputs.setdefault(str(v), ('bool', v))  # environment choices are part of the counter-model
+            return v
         if kind == 'bytes':
             return it.ctx.fresh_bytes(label)
         if kind == 'none':
